@@ -97,6 +97,24 @@ pub struct Exec<'a> {
 	pub col_cfgs: Vec<ColCfg>,
 	stashed_logs: Vec<String>,
 	entries_base: Vec<Option<u64>>,
+	pub tree_rt: Vec<crate::treeops::TreeRt>,
+	pub reject_ctx: bool,
+	/// Record boundaries in log files, from the harness's own observation of each logging step.
+	pub log_records: Vec<LogRec>,
+	/// (commit index (1-based), record id) for commits logged since the last open.
+	pub commit_records: Vec<(usize, u64)>,
+	pub commits_at_open: usize,
+	quiet_open: bool,
+	track_records: bool,
+}
+
+#[derive(Clone, Debug)]
+pub struct LogRec {
+	pub file: String,
+	pub start: u64,
+	pub end: u64,
+	pub record_id: u64,
+	pub live: bool,
 }
 
 pub fn map_property(scenario: &str) -> &'static str {
@@ -185,6 +203,13 @@ impl<'a> Exec<'a> {
 			col_cfgs: cfg.cols.clone(),
 			stashed_logs: Vec::new(),
 			entries_base: Vec::new(),
+			tree_rt: Vec::new(),
+			reject_ctx: false,
+			log_records: Vec::new(),
+			commit_records: Vec::new(),
+			commits_at_open: 0,
+			quiet_open: false,
+			track_records: cfg.scenario == "logfuzz",
 		}
 	}
 
@@ -204,6 +229,16 @@ impl<'a> Exec<'a> {
 	}
 
 	fn violation(&mut self, prop: &str, class: &str, detail: String) {
+		let (prop, class) = if self.reject_ctx {
+			("C08", format!("visible-after-reject:{class}"))
+		} else if self.cfg.scenario == "admin" && (prop == "C02" || prop == "C03") {
+			("C17", format!("after-admin:{class}"))
+		} else if self.cfg.scenario == "reject" && prop == "C14" {
+			("C08", format!("slot-leaked:{class}"))
+		} else {
+			(prop, class.to_string())
+		};
+		let class = class.as_str();
 		if self.viol.len() < 8 {
 			self.viol.push(Violation {
 				prop: prop.to_string(),
@@ -238,14 +273,109 @@ impl<'a> Exec<'a> {
 		match r {
 			Ok(db) => {
 				self.db = Some(db);
+				self.log_records.clear();
+				self.commit_records.clear();
+				self.commits_at_open = self.n();
 				true
 			},
 			Err(e) => {
-				let p = if self.crashed_once { "C02" } else { self.map_prop };
-				self.violation(p, "open-failed", format!("open returned {e}"));
+				if !self.quiet_open {
+					let p = if self.crashed_once { "C02" } else { self.map_prop };
+					self.violation(p, "open-failed", format!("open returned {e}"));
+				}
 				false
 			},
 		}
+	}
+
+	pub fn reopen_quiet(&mut self) -> bool {
+		self.quiet_open = true;
+		let r = self.open_db(false);
+		self.quiet_open = false;
+		r
+	}
+
+	pub fn stashed_view(&self) -> Vec<String> {
+		self.stashed_logs.clone()
+	}
+
+	fn log_sizes(&self) -> Vec<(String, u64)> {
+		let live = self.live.clone();
+		simdisk::muted(|| {
+			let mut v: Vec<(String, u64)> = std::fs::read_dir(&live)
+				.map(|rd| {
+					rd.filter_map(|e| e.ok())
+						.filter_map(|e| {
+							let n = e.file_name().into_string().ok()?;
+							if simdisk::classify(&n) == simdisk::FileClass::Log {
+								Some((n, e.metadata().map(|m| m.len()).unwrap_or(0)))
+							} else {
+								None
+							}
+						})
+						.collect()
+				})
+				.unwrap_or_default();
+			v.sort();
+			v
+		})
+	}
+
+	/// After a logging step: find the record it appended (file, byte range, id).
+	fn note_appended_record(&mut self, before: &[(String, u64)], queued_before: usize, is_commit_step: bool) {
+		let after = self.log_sizes();
+		for (name, len) in &after {
+			let old = before.iter().find(|(n, _)| n == name).map(|x| x.1).unwrap_or(0);
+			if *len > old {
+				let path = format!("{}/{}", self.live, name);
+				let id = simdisk::muted(|| {
+					use std::io::{Read, Seek, SeekFrom};
+					let mut f = std::fs::File::open(&path).ok()?;
+					f.seek(SeekFrom::Start(old)).ok()?;
+					let mut b = [0u8; 9];
+					f.read_exact(&mut b).ok()?;
+					if b[0] != 1 {
+						return None
+					}
+					Some(u64::from_le_bytes(b[1..9].try_into().unwrap()))
+				});
+				if let Some(id) = id {
+					self.log_records.push(LogRec { file: name.clone(), start: old, end: *len, record_id: id, live: true });
+					if is_commit_step && queued_before > 0 && self.counts().0 + 1 == queued_before {
+						let commit_idx = self.n() - queued_before + 1;
+						self.commit_records.push((commit_idx, id));
+					}
+				}
+			}
+		}
+	}
+
+	/// Which recorded log records are still present in their file?
+	pub fn refresh_log_records(&mut self) {
+		let live = self.live.clone();
+		let mut recs = std::mem::take(&mut self.log_records);
+		simdisk::muted(|| {
+			use std::io::{Read, Seek, SeekFrom};
+			for r in recs.iter_mut() {
+				r.live = (|| {
+					let mut f = std::fs::File::open(format!("{}/{}", live, r.file)).ok()?;
+					if f.metadata().ok()?.len() < r.end {
+						return None
+					}
+					f.seek(SeekFrom::Start(r.start)).ok()?;
+					let mut b = [0u8; 9];
+					f.read_exact(&mut b).ok()?;
+					if b[0] == 1 && u64::from_le_bytes(b[1..9].try_into().unwrap()) == r.record_id {
+						Some(())
+					} else {
+						None
+					}
+				})()
+				.is_some();
+			}
+		});
+		recs.retain(|r| r.live);
+		self.log_records = recs;
 	}
 
 	fn drop_iters(&mut self) {
@@ -256,6 +386,7 @@ impl<'a> Exec<'a> {
 
 	fn close_db(&mut self) {
 		self.drop_iters();
+		crate::treeops::release_all(self);
 		// Harness constraint (single-threaded stepping only): Drop enacts up to three more log
 		// files and waits for a cleanup worker when more than 4 logs are dirty; there is no
 		// cleanup worker here, so keep the count low before dropping.
@@ -272,6 +403,7 @@ impl<'a> Exec<'a> {
 	/// Drop the handle of a crashed instance quickly: all its further file operations fail.
 	fn abandon_db(&mut self) {
 		self.drop_iters();
+		crate::treeops::release_all(self);
 		if let Some(db) = self.db.take() {
 			simdisk::muted(|| {
 				parity_db::set_number_of_allowed_io_operations(0);
@@ -689,9 +821,23 @@ impl<'a> Exec<'a> {
 
 	/// Run one pipeline stage. Returns Err(text) if the stage function returned an error.
 	fn run_stage(&mut self, s: Stage) -> Result<bool, String> {
+		let track = matches!(s, Stage::ProcessCommits | Stage::ProcessReindex) && self.track_records;
+		let (sizes_before, queued_before) = if track { (self.log_sizes(), self.counts().0) } else { (Vec::new(), 0) };
 		let r = match s {
-			Stage::ProcessCommits => self.db().verif_process_commits(),
-			Stage::ProcessReindex => self.db().verif_process_reindex(),
+			Stage::ProcessCommits => {
+				let r = self.db().verif_process_commits();
+				if track {
+					self.note_appended_record(&sizes_before, queued_before, true);
+				}
+				r
+			},
+			Stage::ProcessReindex => {
+				let r = self.db().verif_process_reindex();
+				if track {
+					self.note_appended_record(&sizes_before, queued_before, false);
+				}
+				r
+			},
 			Stage::Flush => {
 				let logged = self.n_logged();
 				let r = self.db().verif_flush_logs(0);
@@ -732,7 +878,11 @@ impl<'a> Exec<'a> {
 			},
 			Stage::Clean => self.db().verif_clean_logs(),
 		};
-		r.map_err(|e| format!("{e}"))
+		r.map_err(|e| {
+			let t = format!("{e}");
+			crate::faultops::note_error_text(&t);
+			t
+		})
 	}
 
 	fn step(&mut self, s: Stage) {
@@ -795,6 +945,11 @@ impl<'a> Exec<'a> {
 
 	fn at_drained_point(&mut self) {
 		self.full_sweep();
+		for c in 0..self.ncols {
+			if self.col_kinds[c].is_tree() {
+				crate::treeops::check_entry_count(self, c as u8);
+			}
+		}
 		self.check_value_iteration();
 		self.structural_check();
 	}
@@ -844,6 +999,9 @@ impl<'a> Exec<'a> {
 	}
 
 	fn structural_check(&mut self) {
+		if crate::treeops::any_locked(self) {
+			return
+		}
 		self.stats.structural_checks += 1;
 		let live = self.live.clone();
 		let findings = simdisk::muted(|| structural::check_dir(&live, self));
@@ -1302,8 +1460,62 @@ impl<'a> Exec<'a> {
 
 	// -- commit ---------------------------------------------------------------------------------
 
+	/// Drop tree operations that are not applicable in the current state (so that minimised or
+	/// hand-edited op lists stay valid commits): insert under a live key, reference to a node
+	/// that no longer exists, dereference of a missing tree...
+	fn sanitise(&self, tx: &[(u8, TxOp)]) -> Vec<(u8, TxOp)> {
+		let mut out = Vec::new();
+		let mut touched: Vec<std::collections::HashSet<usize>> = self.col_kinds.iter().map(|_| Default::default()).collect();
+		for (c, op) in tx {
+			if (*c as usize) >= self.col_kinds.len() {
+				continue
+			}
+			let kind = self.col_kinds[*c as usize];
+			match op {
+				TxOp::InsertTree(k, _) | TxOp::RefTree(k) | TxOp::DerefTree(k) => {
+					if kind.is_tree() && crate::treeops::applicable(self, *c, op, &touched[*c as usize]) {
+						touched[*c as usize].insert(*k);
+						// trees referenced by Existing children must not be dereferenced later in the same tx
+						if let TxOp::InsertTree(_, spec) = op {
+							fn refs(s: &TreeSpec, out: &mut std::collections::HashSet<usize>) {
+								for c in &s.children {
+									match c {
+										ChildSpec::New(n) => refs(n, out),
+										ChildSpec::Existing { root, .. } => {
+											out.insert(*root);
+										},
+									}
+								}
+							}
+							let mut r = Default::default();
+							refs(spec, &mut r);
+							touched[*c as usize].extend(r);
+						}
+						out.push((*c, op.clone()));
+					}
+				},
+				TxOp::Set(k, _) | TxOp::Del(k) | TxOp::Ref(k) => {
+					if !kind.is_tree() && *k < self.col_cfgs[*c as usize].keys.len() {
+						if matches!(op, TxOp::Ref(_)) && !kind.is_rc() {
+							continue
+						}
+						if let (TxOp::Set(k, _), true) = (op, kind.is_preimage()) {
+							// the preimage contract: the value is determined by the key
+							out.push((*c, TxOp::Set(*k, self.col_cfgs[*c as usize].preimage_vals[*k])));
+							continue
+						}
+						out.push((*c, op.clone()));
+					}
+				},
+				TxOp::RawRef(_) => {},
+			}
+		}
+		out
+	}
+
 	fn commit(&mut self, tx: &[(u8, TxOp)], check: bool) {
 		self.stats.commits += 1;
+		let tx = &self.sanitise(tx)[..];
 		let dbtx = self.to_db_tx(tx);
 		match self.db().commit_changes(dbtx) {
 			Ok(()) => {
@@ -1328,6 +1540,73 @@ impl<'a> Exec<'a> {
 		}
 	}
 
+	// -- rejected transactions (C08) --------------------------------------------------------------
+
+	fn entry_counts(&self) -> Vec<Option<u64>> {
+		(0..self.ncols)
+			.map(|c| {
+				if self.col_kinds[c].is_btree() {
+					None
+				} else {
+					self.db().get_num_column_value_entries(c as u8).ok()
+				}
+			})
+			.collect()
+	}
+
+	fn bad_commit(&mut self, tx: &[(u8, TxOp)], bg_err: bool) {
+		self.stats.probe("bad_commits");
+		if crate::treeops::any_locked(self) {
+			return
+		}
+		let before = self.entry_counts();
+		if bg_err {
+			self.db().verif_store_err(parity_db::Error::InvalidInput("injected background error".into()));
+		}
+		let dbtx = if bg_err { let t = self.sanitise(tx); self.to_db_tx(&t) } else { self.to_db_tx(tx) };
+		let has_oversize = tx.iter().any(|(_, op)| matches!(op, TxOp::InsertTree(_, s) if s.children.len() > 255));
+		let r = self.db().commit_changes(dbtx);
+		match r {
+			Ok(()) => {
+				if has_oversize {
+					self.violation("C10", "unrepresentable-accepted", "InsertTree with a root fan-out above 255 was accepted instead of being rejected".into());
+				} else {
+					self.violation("C08", "invalid-commit-accepted", format!("a transaction with an invalid operation{} was accepted", if bg_err { " (database in background-error state)" } else { "" }));
+				}
+				return
+			},
+			Err(_) => {},
+		}
+		// nothing of it may be visible: the model is unchanged
+		self.reject_ctx = true;
+		self.full_sweep();
+		self.reject_ctx = false;
+		let after = self.entry_counts();
+		for c in 0..self.ncols {
+			if let (Some(b), Some(a)) = (before[c], after[c]) {
+				if a != b {
+					self.violation(
+						"C08",
+						"entries-changed",
+						format!("col {c} [{}]: value entry count went from {b} to {a} across a rejected commit", self.col_kinds[c].name()),
+					);
+				}
+			}
+		}
+		if bg_err {
+			// The handle is now unusable for writing: close it and reopen; what was synced must
+			// survive (C16), what was only queued may be lost.
+			let lo = self.n_synced;
+			let hi = self.n_logged();
+			self.close_db();
+			let dir = self.live.clone();
+			self.stats.probe("bg_err_reopen");
+			if let Some(j) = self.verify_image(&dir, lo, hi, "reopen after a stored background error", false) {
+				self.adopt(j);
+			}
+		}
+	}
+
 	// -- main entry -----------------------------------------------------------------------------
 
 	pub fn exec_op(&mut self, i: usize, op: &Op) {
@@ -1338,6 +1617,7 @@ impl<'a> Exec<'a> {
 		}
 		match op {
 			Op::Commit(tx) => self.commit(tx, true),
+			Op::BadCommit { tx, bg_err } => self.bad_commit(tx, *bg_err),
 			Op::Step(s) => {
 				simdisk::with(|d| d.begin_step());
 				self.step(*s);
@@ -1352,7 +1632,7 @@ impl<'a> Exec<'a> {
 			Op::LogFuzz { muts, adopt } => crate::faultops::logfuzz(self, muts, *adopt),
 			Op::LockTree(c, k) => crate::treeops::lock_tree(self, *c, *k),
 			Op::UnlockTree(c, k) => crate::treeops::unlock_tree(self, *c, *k),
-			Op::Admin(a) => crate::adminops::admin(self, a),
+			Op::Admin(a, pending) => crate::adminops::admin(self, a, *pending),
 		}
 		if self.db.is_none() {
 			return
@@ -1364,6 +1644,7 @@ impl<'a> Exec<'a> {
 		};
 		self.record_stage_vector(tag);
 		self.check_recent();
+		crate::treeops::check_locked(self);
 		if i % 8 == 7 {
 			self.full_sweep();
 		}
@@ -1459,6 +1740,19 @@ impl<'a> Exec<'a> {
 	}
 	pub fn drained_checks(&mut self) {
 		self.at_drained_point()
+	}
+	/// After the column set changed: per-column runtime vectors follow.
+	pub fn resize_cols(&mut self) {
+		self.iters = self.col_kinds.iter().map(|_| None).collect();
+		self.tree_rt.clear();
+	}
+	/// Forget history before the current state (used after administrative changes).
+	pub fn collapse_history(&mut self) {
+		let last = self.hist[self.hist.len() - 1].clone();
+		self.hist = vec![last];
+		self.n_synced = 0;
+		self.commits_at_open = 0;
+		self.commit_records.clear();
 	}
 	pub fn mark_restart(&mut self) {
 		self.n_synced = self.n();
